@@ -323,7 +323,8 @@ def worker_main(prop_id, tier, seed, shard, nshards, out_path):
                                 "scratch_style": os.environ.get("HSVERIF_SCRATCH_STYLE") or "plain",
                                 "optimize": sys.flags.optimize}
     except BaseException as e:  # noqa
-        res["error"] = "".join(traceback.format_exception(type(e), e, e.__traceback__))[-4000:]
+        tb = "".join(traceback.format_exception(type(e), e, e.__traceback__))
+        res["error"] = tb[-4000:] if not os.environ.get("HSVERIF_TB_HEAD") else tb[:3000] + "\n[...]\n" + tb[-1500:]
     res.update(ctx.result())
     res["wall"] = time.time() - t0
     import locale
